@@ -21,7 +21,9 @@ from vf.fakezmq import Net
 
 PROP = "C18"
 
-DS = [DatasetId("t", "a"), DatasetId("t", "b")]
+DS = [DatasetId("t", "a.x"), DatasetId("t", "b")]
+# never uploaded; prints exactly like DS[0] ("t.a.x"): results are per dataset id, not per printed form
+LOOKALIKE = DatasetId("t.a", "x")
 # report kinds of one job: three progress reports with increasing timestamps, two results, the shutdown notice
 REPORTS = ["P1", "P2", "P3", "Ra", "Rb", "Rab", "P2Ra", "S"]
 TS = {"P1": 10, "P2": 20, "P3": 30, "Ra": 25, "Rb": 35, "Rab": 35, "P2Ra": 20, "S": 40}
@@ -151,7 +153,7 @@ class World:
             if r is not None and (r.error is not None or r.progresses != {jid: ref["progress"]}):
                 cause = "an older report overwrote a newer one" if ref["max_ts"] is not None and r.error is None and jid in r.progresses and _older(r.progresses[jid], ref["progress"]) else "progress differs from the newest report received"
                 out.append(("progress_mismatch", cause, f"job {j}: gateway {r!r} expected {ref['progress']}"))
-            for ds in DS + [DatasetId("t", "zzz")]:
+            for ds in DS + [DatasetId("t", "zzz"), LOOKALIKE]:
                 r = ask(gapi.ResultRetrievalRequest(job_id=jid, dataset_id=ds))
                 if r is None:
                     continue
